@@ -87,10 +87,9 @@ inductive Item where
   deriving Repr, DecidableEq
 
 /-- `s.split('=', 1)` when `'=' in s` -/
-def splitEq (cs : List Char) : Option (List Char × List Char) :=
-  match cs.span (fun c => c != '=') with
-  | (pre, _ :: post) => some (pre, post)
-  | (_, []) => none
+def splitEq : List Char → Option (List Char × List Char)
+  | [] => none
+  | c :: cs => if c == '=' then some ([], cs) else (splitEq cs).map (fun p => (c :: p.1, p.2))
 
 /-- `_get_option_tuples` (allow_abbrev is True: `CLIParser.__init` is never called, the default applies) -/
 def optionTuples (strs : List (String × Target)) (cs : List Char) : List (Target × String × Option String) :=
@@ -597,6 +596,44 @@ def goodOpt (o : OptSpec) : Bool :=
   (!isFileType o.ty || o.arity == .opt || o.arity == .one) &&
   (o.positional || o.arity == .zero || o.arity == .one || o.arity == .plus) &&
   (o.action != "compose_two_parsers" || o.compose.length == 2)
+
+/-! ### decidable checks over the option strings of a parser (used by the table theorems) -/
+
+/-- the proper prefixes of at least three characters -/
+def prefixesOf (f : String) : List String :=
+  (List.range f.toList.length).filterMap (fun k => if 3 ≤ k then some (String.ofList (f.toList.take k)) else none)
+
+/-- every proper prefix of a long option string is read as argparse documents: the option itself when no other
+option string starts with it, an ambiguity error otherwise (unless the prefix is itself an option string) -/
+def abbrevOK (strs : List (String × Target)) : Bool :=
+  strs.all (fun x =>
+    !("--".toList.isPrefixOf x.1.toList) ||
+    (prefixesOf x.1).all (fun a =>
+      (lookupOS strs a).isSome ||
+      (if (strs.filter (fun y => a.toList.isPrefixOf y.1.toList)).length == 1
+       then classifyTok strs a == .opt x.2 x.1 none
+       else classifyTok strs a == .ambiguous a)))
+
+/-- the single-dash, one-letter option strings of options without argument (`-h` included) -/
+def shortFlags (strs : List (String × Target)) : List (String × Target) :=
+  strs.filter (fun x => (match x.1.toList with | ['-', c] => c != '-' | _ => false) && arityT x.2 == .zero)
+
+def letterOf (f : String) : List Char := f.toList.drop 1
+
+/-- every two / three short flags written as one token are read as the first one with the letters of the others
+as explicit argument -/
+def clusterOK (strs : List (String × Target)) : Bool :=
+  (shortFlags strs).all (fun x => (shortFlags strs).all (fun y =>
+    classifyTok strs (x.1 ++ String.ofList (letterOf y.1)) == .opt x.2 x.1 (some (String.ofList (letterOf y.1))) &&
+    (shortFlags strs).all (fun z =>
+      classifyTok strs (x.1 ++ String.ofList (letterOf y.1 ++ letterOf z.1)) ==
+        .opt x.2 x.1 (some (String.ofList (letterOf y.1 ++ letterOf z.1))))))
+
+/-- no option string looks like a negative number, contains `=` or a blank, or is `--`; all start with `-` -/
+def stringsOK (strs : List (String × Target)) : Bool :=
+  !hasNegOpts strs &&
+  strs.all (fun x => !x.1.toList.contains '=' && !x.1.toList.contains ' ' && x.1 != "--" &&
+    (match x.1.toList with | '-' :: _ :: _ => true | _ => false))
 
 def supportedNamesX (kind : String) : List String :=
   (cliSpecs.filter (fun s => s.kind == kind && s.supportedX)).map (·.name)
